@@ -481,7 +481,11 @@ Definition c02_step (s : ost) (o : op) (x3 : obs3) : sv :=
   | XBad =>
       (* the harness ran the same history without the bad-PEC packets on a twin context and this
          observation differs from the twin's: a rejected packet changed a later output *)
-      sv_of false 9
+      match o with
+      | OProcess _ _ | ODecode _ | OGetLength _ | OSetEid _ _ | OSetUuid _ => sv_of false 9
+      | OEncode h id _ _ _ => if known_encoder h id then sv_of false 9 else sv_triv
+      | _ => sv_triv
+      end
   | _ =>
   match o with
   | ODecode p =>
@@ -539,7 +543,8 @@ Definition c11_step (s : ost) (o : op) (x : obs) : sv :=
 (* ================================================================ responses to accepted requests (C12-C15) *)
 (* the commands the responder answers *)
 Definition answerable (cmd : N) : bool := (1 <=? cmd) && (cmd <=? 6).
-Definition accepted_request (p : list N) : bool := wf_packet p && (nth 8 p 0 =? 0) && is_request p.
+Definition accepted_request (p : list N) : bool :=
+  wf_packet p && (nth 8 p 0 =? 0) && is_request p && (12 <=? length p)%nat.   (* 12 = headers + control header + PEC *)
 Definition instance_of (p : list N) : N := nth 9 p 0 mod 32.
 
 Definition enc_vendor_set (v : vendor_id) : list N :=
@@ -607,6 +612,7 @@ Definition c13_step (g : config) (s : ost) (o : op) (x3 : obs3) : sv :=
                                 | XProcess (inl (_, Some n)) b => (n =? 16)%nat && list_eqb (sub b 10 3) [2; 0; es0]
                                 | _ => false end) 5
           else sv_of unchanged 6
+        else if assigning p then sv_of ((er =? nth 12 p 0) && (es =? nth 12 p 0)) 9   (* assigned even if the short buffer makes the answer fail *)
         else sv_of unchanged 7
   | _ => sv_of ((er =? er0) && (es =? es0)) 8
   end.
